@@ -16,7 +16,7 @@ import z3
 from pyvc import fd
 from pyvc import strings as S
 from pyvc.contract import Contract, register
-from pyvc.interp import PyRaise
+from pyvc.interp import PyRaise, Unsupported
 from pyvc.sym import SMap, SObj, SStr, SBool, FV, StrSort, TERM_REG, fresh_str, lit, mk_str, str_z, eq_z3
 from spec import v2 as S2, v3 as S3, v4 as S4
 
@@ -55,6 +55,33 @@ def opaque_map(ctx, version, values, vec, prefix):
     m = SMap(dom, val, None, prefix)
     m.info = info
     return m
+
+
+def map_from_smap(m, values):
+    """view of a metric map the real parser produced from a structured string: presence and
+    value of every specification key as finite-domain nodes derived from the map's terms"""
+    from pyvc.sym import bool_node_strict, term_to_fd
+
+    info = {}
+    for k in values:
+        p = z3.simplify(z3.Select(m.dom, lit(k)))
+        v = z3.simplify(z3.Select(m.val, lit(k)))
+        pn = bool_node_strict(p)
+        if pn is None:
+            raise Unsupported("presence of %s is not a finite-domain condition" % k)
+        vn = term_to_fd(v)
+        if vn is None:
+            raise Unsupported("value of %s is not a finite-domain term" % k)
+        # the stored value is meaningful only when the key is present: absent -> a legal dummy
+        from pyvc import fd as _fd
+
+        dummy = values[k][0]
+        legal = set(values[k])
+        vn = _fd.apply(lambda pr, x: x if (pr and x in legal) else dummy, pn, vn) if isinstance(vn, _fd.Node) or isinstance(pn, _fd.Node) else (vn if vn in legal else dummy)
+        info[k] = (p, None, vn, pn)
+    out = SMap(m.dom, m.val, None, "y")
+    out.info = info
+    return out
 
 
 class Shim(object):
@@ -146,6 +173,21 @@ def parse_effect(version, grammar, malformed, view_cls, attach):
         vec = o.fields.get("vector")
         if not isinstance(vec, SStr):
             return NotImplemented  # concrete vectors are simply executed
+        if isinstance(vec, S.SCat):
+            # a structured string (one the library emitted): the real parser runs on it
+            from pyvc.contract import lookup_function
+
+            f = lookup_function(eng, self.module, self.qualname)
+            eng.run_body(f, args, kwargs, st)
+            m = o.fields.get("metrics")
+            if not isinstance(m, SMap):
+                raise Unsupported("parse_vector on a structured string did not produce a metric map")
+            shim = Shim(eng, st)
+            view = view_cls(shim, "y", omap=lambda c, values: map_from_smap(m, values))
+            if version == "3":
+                view.minor = o.fields.get("minor_version")
+            attach(o, view)
+            return None
         syn = f_syn[version](vec.z)
         if not st.decide(syn, "Syn?"):
             raise PyRaise(eng.module("exceptions").globals[malformed], ("malformed",))
@@ -234,7 +276,7 @@ class Init3(Init):
     def effect(self, eng, st, args, kwargs):
         o = args[0]
         vec = args[1] if len(args) > 1 else kwargs.get("vector")
-        if not isinstance(vec, SStr):
+        if not isinstance(vec, SStr) or isinstance(vec, S.SCat):
             return NotImplemented
         ex = eng.module("exceptions").globals
         if not st.decide(f_syn["3"](vec.z), "Syn3?"):
@@ -277,7 +319,7 @@ class Init2(Init):
     def effect(self, eng, st, args, kwargs):
         o = args[0]
         vec = args[1] if len(args) > 1 else kwargs.get("vector")
-        if not isinstance(vec, SStr):
+        if not isinstance(vec, SStr) or isinstance(vec, S.SCat):
             return NotImplemented
         ex = eng.module("exceptions").globals
         if not st.decide(f_syn["2"](vec.z), "Syn2?"):
@@ -324,7 +366,7 @@ class Init4(Init):
     def effect(self, eng, st, args, kwargs):
         o = args[0]
         vec = args[1] if len(args) > 1 else kwargs.get("vector")
-        if not isinstance(vec, SStr):
+        if not isinstance(vec, SStr) or isinstance(vec, S.SCat):
             return NotImplemented
         ex = eng.module("exceptions").globals
         if not st.decide(f_syn["4"](vec.z), "Syn4?"):
@@ -359,3 +401,130 @@ ParseVector4.effect = parse_effect("4", G4, "CVSS4MalformedError", C4.V4, _attac
 
 ParseVector3.effect = parse_effect("3", G3, "CVSS3MalformedError", C3.V3, _attach3)
 ParseVector2.effect = parse_effect("2", G2, "CVSS2MalformedError", C2.V2, _attach2)
+
+
+# ---------------------------------------------------------------------------------------------
+# from_rh_vector (C12)
+
+
+class FromRh(Contract):
+    """<Class>.from_rh_vector on an arbitrary string"""
+
+    version = None
+    cls = None
+    grammar = None
+    modifies = None
+
+    def setup(self, ctx):
+        cls = ctx.engine.module(self.module).globals[self.cls]
+        rh = fresh_str("rh")
+        ctx.data["rh"] = rh
+        ctx.data["cls"] = cls
+        ctx.engine.model_terms.append(("rh", rh.z))
+        # the assumed split facts (A1) for this string
+        for f in S.SplitResult(rh, "/").facts() + S.tail1_facts(rh, "/"):
+            ctx.assume(f)
+        return [cls, rh], {}
+
+    def terms(self, ctx):
+        rh = ctx.data["rh"]
+        has_slash = S.f_nparts(rh.z, lit("/")) >= 2
+        head = S.f_part(rh.z, lit("/"), 0)
+        tail = S.f_tail1(rh.z, lit("/"))
+        return has_slash, head, tail
+
+    def check_return(self, ctx, value):
+        has_slash, head, tail = self.terms(ctx)
+        v = self.version
+        ok = isinstance(value, SObj) and value.cls is ctx.data["cls"]
+        ctx.prove("post:returns-object-of-class", ok, "the result is an object of the class")
+        if not ok:
+            return
+        ctx.prove("post:built-from-vector-part", eq_z3(value.fields.get("vector"), SStr(tail)),
+                  "the object is constructed from the text after the first '/'")
+        ctx.prove("post:has-slash-and-numeric", z3.And(has_slash, S.f_numeric(head)),
+                  "accepted only if there is a '/' and the score part parses as a number")
+        view = getattr(value, "v%sview" % v, None)
+        if view is None:
+            ctx.fail("post:view", "object without a parsed view")
+            return
+        from pyvc.models import float_real
+
+        sc, _ = float_real(score_float_of(view, v))
+        ctx.prove("post:score-equal", z3.And(z3.Not(S.f_fnan(head)), S.f_fval(head) == sc),
+                  "accepted only if the number equals the computed base score exactly")
+
+    def check_raise(self, ctx, exc):
+        ex = ctx.engine.module("exceptions").globals
+        has_slash, head, tail = self.terms(ctx)
+        v = self.version
+        name = exc.exc_cls.__name__
+        syn = f_syn[v](tail)
+        if exc.exc_cls is ex["CVSS%sRHMalformedError" % v]:
+            ctx.prove("raises:RHMalformed=>no-slash-or-not-numeric", z3.Or(z3.Not(has_slash), z3.Not(S.f_numeric(head))),
+                      "the RH-malformed error is raised only for a missing or non-numeric score part")
+        elif exc.exc_cls is ex["CVSS%sRHScoreDoesNotMatch" % v]:
+            ctx.prove("raises:ScoreDoesNotMatch=>valid-vector-and-numeric", z3.And(has_slash, S.f_numeric(head), syn),
+                      "the score-mismatch error is raised only for a numeric score and a valid vector part")
+            obj = ctx.data.get("constructed")
+            if obj is not None and getattr(obj, "v%sview" % v, None) is not None:
+                from pyvc.models import float_real
+
+                view = getattr(obj, "v%sview" % v)
+                sc, _ = float_real(score_float_of(view, v))
+                ctx.prove("raises:ScoreDoesNotMatch=>scores-differ", z3.Or(S.f_fnan(head), S.f_fval(head) != sc),
+                          "the score-mismatch error is raised only when the number differs from the base score")
+        elif exc.exc_cls is ex["CVSS%sMalformedError" % v]:
+            ctx.prove("raises:Malformed=>vector-part-malformed", z3.And(has_slash, S.f_numeric(head), z3.Not(syn)),
+                      "the ordinary malformed error comes from the vector part")
+        elif exc.exc_cls is ex["CVSS%sMandatoryError" % v]:
+            ctx.prove("raises:Mandatory=>vector-part", z3.And(has_slash, S.f_numeric(head), syn),
+                      "the mandatory-metric error comes from the vector part")
+        else:
+            ctx.fail("raises:%s" % name, "%s escapes from_rh_vector" % name)
+
+    def hooks(self, ctx):
+        base = ctx.engine.hooks["on_call"]
+
+        def on_call(eng, st, f, args, kwargs):
+            r = base(eng, st, f, args, kwargs)
+            if f.name == "__init__" and args and isinstance(args[0], SObj):
+                ctx.data["constructed"] = args[0]
+            return r
+
+        return {"on_call": on_call}
+
+
+def score_float_of(view, v):
+    """the very node the scores() contract hands to callers (same guards, no definitions needed)"""
+    if v == "4":
+        return view.spec("score_float")
+    mod = {"2": C2, "3": C3}[v]
+    eff = REG_SCORES[v].effect(None, None, [view._owner], {}) if getattr(view, "_owner", None) is not None else None
+    if eff is not None:
+        return eff[0]
+    return lift_float(view.spec("base"))
+
+
+REG_SCORES = {}
+
+
+def lift_float(spec):
+    from .common import lift
+
+    return lift(lambda x: None if x is None else x.numerator / x.denominator, spec)
+
+
+@register
+class FromRh2(FromRh):
+    module, qualname, cls, version, grammar = "cvss2", "CVSS2.from_rh_vector", "CVSS2", "2", G2
+
+
+@register
+class FromRh3(FromRh):
+    module, qualname, cls, version, grammar = "cvss3", "CVSS3.from_rh_vector", "CVSS3", "3", G3
+
+
+@register
+class FromRh4(FromRh):
+    module, qualname, cls, version, grammar = "cvss4", "CVSS4.from_rh_vector", "CVSS4", "4", G4
